@@ -448,11 +448,8 @@ pub fn scan_and_mark_chemistry(mathml: Element) -> bool {
 
 // returns the marked attr value or None
 fn get_marked_value(mathml: Element) -> Option<isize> {
-    if let Some(value) = mathml.attribute_value(MAYBE_CHEMISTRY) {
-        return Some(value.parse().unwrap());
-    } else {
-        return None;
-    }
+    // the mark can also come in with the input: anything that is not a number counts as no mark
+    return mathml.attribute_value(MAYBE_CHEMISTRY).and_then(|value| value.parse().ok());
 }
 
 /// Sets the attr 'chem'
